@@ -81,6 +81,7 @@ enum PointID : int {
   kEpochForwardEnd = 57,      // ForwardGlobalEpoch: published
   kEpochBindHeartbeat = 58,   // CreateEpochGuard: about to (re)bind the heartbeat
   kEpochLookupBegin = 59,     // ProtectedNode::GetProtectedEpochs: head of the list read, before the traversal
+  kEpochScanSlot = 60,        // CollectProtectedEpochs: slot found alive, before its pinned epoch is read
 };
 
 /// @brief A scheduling point: called between two atomic steps of one operation.
